@@ -480,7 +480,7 @@ PROPS["C13"] = dict(
     timeout={"quick": 900, "thorough": 5400},
     floors={"quick": {"digests_compared_with_solo_run": 100, "mutex_sections": 10000,
                       "mutex_handovers_between_threads": 1000, "trylock_sections_that_had_to_wait": 10,
-                      "join_publish_threads": 100, "root_results_received_after_join": 100, "threads_started_with_a_heap_argument_collection": 50, "threads_given_an_initial_thread_local_value": 100, "cloned_thread_trials": 20, "cold_first_lookup_rounds": 400,
+                      "join_publish_threads": 100, "root_results_received_after_join": 100, "threads_started_with_a_heap_argument_collection": 50, "threads_given_an_initial_thread_local_value": 100, "threads_alternating_with_blocks_on_two_types": 100, "cloned_thread_trials": 20, "cold_first_lookup_rounds": 400,
                       "mutex_phases_started_with_cold_lookups": 20}},
     rule="case = one trial: N threads (2..16) each run a seeded workload alone and then together, then 50-200 "
          "Mutex sections each, then a join-publish round; distinct = hash including the observed lock acquisition "
